@@ -397,6 +397,27 @@ func vfC18Handlers(rec *evid.Rec) {
 		}
 		rec.Distinct(fmt.Sprintf("handler|%s|served=%d|more=%d", k.name, served, more))
 	}
+	// The mount limit covers MNT requests whatever becomes of them: requests for paths that do not
+	// resolve are work done for the client too (they reach the backend). On a frozen clock at most
+	// `burst` MNT requests of one address may reach the backend or be served, however they are mixed.
+	for vi, paths := range [][]string{{"/nope"}, {"/nope", "/"}, {"/", "/missing/deeper", "/f"}} {
+		vfClockAdvance(10 * time.Minute) // every bucket full again
+		cl := srv.client()
+		cl.IP = fmt.Sprintf("10.7.7.%d", vi+1)
+		worked := 0
+		for i := 0; i < 8; i++ {
+			lo := fs.LogLen()
+			rec.Eval(1)
+			st, ok := status(vfProgMount, 1, (&xdrw.W{}).Str(paths[i%len(paths)]).B, cl)
+			if ok && (st == 0 || fs.LogLen() > lo) {
+				worked++
+			}
+		}
+		if worked > 2 {
+			rec.Violate("C18/handler/admitted-beyond-burst/mount/paths-that-do-not-resolve", fmt.Sprintf("%d of 8 MNT requests (paths %v) were served or reached the backend on a frozen clock, the mount burst is 2", worked, paths), nil)
+		}
+		rec.Distinct(fmt.Sprintf("handler|mount-mixed-paths|variant=%d|worked=%d", vi, worked))
+	}
 }
 
 // C19: traffic refused to one client does not consume capacity shared with others.
